@@ -230,6 +230,8 @@ def run(run):
             run.disagree('call', d['case'], d['exp'], d['obs'], d['features'], clause=d['path'], repro=d['formula'])
     run.notes['cases_by_function'] = byf
     run.notes['functions_covered'] = len(byf)
+    # the same calls in four orders, each order in ONE fresh process (state left behind by earlier calls)
+    calls.replay_orders(run, blocks, worker, key=lambda b: len(b), sample=6000)
     from checks.sig_table import SIG, EXCLUDED, NOARGS
     known = {f for f, _, _ in SIG} | set(EXCLUDED) | set(NOARGS)
     run.notes['unmodelled_registered_functions'] = sorted(set(xl.lib().xl.FUNCTIONS) - known)   # reported, never a violation
